@@ -515,7 +515,7 @@ class FieldStream(Stream):
         if case['absent'] is not None:
             if o['decx'] is not None:
                 return 'roundtrip: %s absent text %r decoded to %r' % (cn, case['absent'], o['decx'])
-        elif case['extras'] and not any(k in ('forgiving', 'self') for k, _, _ in case['extras']):
+        elif case['extras']:
             base = o['dec'] if t != '' else fresh
             if is_err(o['decx']):
                 badv = [v for _, v, _ in case['extras'] if not compatible(cn, v)]
@@ -897,8 +897,8 @@ class MiscStream(Stream):
     def path_textx(self, text, case):
         if case['raw'] is not None:
             return case['raw']
-        if text is None:
-            return None
+        if not text:
+            return text
         d = json.loads(text)
         for k, v, where in case['extras']:
             if where == 'payload' and isinstance(d.get('payload'), dict):
@@ -928,9 +928,10 @@ class MiscStream(Stream):
         if isinstance(o['text'], str):
             o['dec'] = dec(o['text'])
             try:
-                o['reenc'] = cls.from_json(o['text']).to_json()
+                back = cls.from_json(o['text'])
+                o['reenc'] = None if back is None else back.to_json()
             except Exception as e:
-                o['reenc'] = err(e)
+                o['reenc'] = None if is_err(o['dec']) else err(e)
             o['textx'] = self.path_textx(o['text'], case)
         else:
             o['textx'] = case['raw']
@@ -1036,7 +1037,7 @@ class MiscStream(Stream):
                 return 'roundtrip: Gateway %r decodes as %r' % (o['ctor'], o['dec'])
             if o['reenc'] != o['text']:
                 return 'canonical: Gateway re-encoding differs'
-            if case['extras'] and all(compatible('Labels', v) for _, v, _ in case['extras']):
+            if case['extras'] and all(compatible('Labels', v) or kk not in o['ctor'] for kk, v, _ in case['extras']):
                 unknown_only = all(kk not in o['ctor'] for kk, _, _ in case['extras'])
                 if is_err(o['decx']):
                     return 'forward-compat: Gateway.from_json raises %s on extra keys' % o['decx']['err']
@@ -1049,9 +1050,13 @@ class MiscStream(Stream):
             if not o['unchanged']:
                 return 'purity: %s.to_json modified the object' % name
             if is_err(o['text']):
-                if case['payload'][0] == 'unset' and case['ptype'] == 'Path':
+                if case['payload'][0] == 'unset':
                     return 'roundtrip: %s with nothing set cannot be encoded (%s)' % (name, o['text']['err'])
                 return 'roundtrip: %s.to_json raises %s' % (name, o['text']['err'])
+            if case['payload'][0] == 'unset':
+                if o['text'] != '' or o['dec'] is not None:
+                    return 'roundtrip: %s with nothing set encodes as %r and decodes as %r' % (name, o['text'], o['dec'])
+                return None
             if not same(o['dec'], o['ctor']):
                 return 'roundtrip: %s %r decodes as %r' % (name, o['ctor'], o['dec'])
             if o['reenc'] != o['text']:
@@ -1372,30 +1377,6 @@ class MaintStream(Stream):
 # ----------------------------------------------------------------------------------------------
 # replays of the ..._refuted witnesses of Properties/C03.v on the implementation
 # ----------------------------------------------------------------------------------------------
-def w_forward_compat():
-    from fim.slivers.capacities_labels import Capacities
-    base = Capacities.from_json('{"core": 2}')
-    try:
-        x = Capacities.from_json('{"core": 2, "gpu_model": "A100"}')
-        return (x.__dict__ != base.__dict__, 'decoded %r' % (x.__dict__,))
-    except Exception as e:
-        return (True, 'Capacities.from_json(\'{"core": 2, "gpu_model": "A100"}\') raises %s' % type(e).__name__)
-
-
-def w_pathinfo_unset():
-    from fim.slivers.path_info import PathInfo, ERO
-    out = []
-    for cls in (PathInfo, ERO):
-        try:
-            t = cls().to_json()
-            back = cls.from_json(t)
-            if not (t == '' and back is None):
-                out.append('%s().to_json() = %r' % (cls.__name__, t))
-        except Exception as e:
-            out.append('%s().to_json() raises %s' % (cls.__name__, type(e).__name__))
-    return (bool(out), '; '.join(out))
-
-
 def w_tuple_value():
     from fim.graph.typed_tuples import Capacity, Label
     a = Capacity(fromstring=Capacity(atype='ram', aval=1000).get_as_string()).get_val()
@@ -1408,15 +1389,6 @@ def w_capacities_none():
     x = Capacities(core=None, ram=1)
     y = Capacities.from_json(x.to_json())
     return (not same(canon(dict(x.__dict__)), canon(dict(y.__dict__))), 'core=None reads back as %r' % (y.core,))
-
-
-def w_maint_unknown_field():
-    from fim.slivers.maintenance_mode import MaintenanceInfo
-    try:
-        m = MaintenanceInfo.from_json('{"n1": {"state": "Maint", "deadline": null, "expected_end": null, "reason": "x"}}')
-        return (m.get('n1') is None or m.get('n1').state.name != 'Maint', 'decoded')
-    except Exception as e:
-        return (True, 'MaintenanceInfo.from_json with an unknown entry field raises %s' % type(e).__name__)
 
 
 class C03(Check):
@@ -1444,16 +1416,11 @@ class C03(Check):
         '(C03_drop_rule_lossless shows nothing else is excluded, except None/False for Capacities = recorded finding)',
         'jwfb: strings contain no lone surrogate code points, dict keys are distinct strings, floats are finite-or-NaN/Infinity tokens '
         'in repr form; field values of the JSONField classes contain no dict (documented types: int, bool, float, str, list of str)',
-        'unknown keys are not attribute names of the class (to_json, update, VALIDATORS ...): __getattribute__ finds those and '
-        '_set_fields stores the value instead of ignoring it (noted under the forward-compatibility finding)',
-        'pinfo_wf: set() was called on a PathInfo/ERO (the unset case is the recorded finding); tval_plain: typed-tuple values are '
-        'strings without trailing whitespace (ints / trailing whitespace = recorded finding)',
+        'tval_plain: typed-tuple values are strings without trailing whitespace (ints / trailing whitespace = recorded finding)',
     ]
 
     def refuted_witnesses(self):
-        return [('C03_field_forward_compat_refuted', w_forward_compat), ('C03_pathinfo_unset_refuted', w_pathinfo_unset),
-                ('C03_tuple_value_refuted', w_tuple_value), ('C03_capacities_none_refuted', w_capacities_none),
-                ('C03_maint_unknown_entry_field_refuted', w_maint_unknown_field)]
+        return [('C03_tuple_value_refuted', w_tuple_value), ('C03_capacities_none_refuted', w_capacities_none)]
 
 
 if __name__ == '__main__':
